@@ -80,11 +80,10 @@ Definition same_paths (a b : list (list bytes)) : bool :=
   forallb (fun p => path_in p b) a && forallb (fun p => path_in p a) b.
 Definition tree_model_bad (c : tree_case) : bool :=
   negb (same_paths (listed_in (tc_tree c)) (tc_listed c) && same_paths (surviving_in (tc_tree c)) (tc_survived c)).
-(** Plain meaning: result.js names the files that are there.  Trees with a
-    fifo are exempt: listing then removing it is a recorded side finding
-    (Properties/C12.v c12_listed_tree_with_fifo_refuted). *)
+(** Plain meaning: result.js names the files that are there afterwards, and
+    all of them - fifos included. *)
 Definition tree_oracle_bad (c : tree_case) : bool :=
-  negb (tc_has_other c || same_paths (tc_listed c) (tc_survived c)).
+  negb (same_paths (tc_listed c) (tc_survived c)).
 
 (** * Plays *)
 Record play_case := {
